@@ -9,8 +9,9 @@ import (
 )
 
 type seg struct {
-	data []byte
-	at   time.Duration
+	data   []byte
+	at     time.Duration
+	sealed bool // never merged with a later chunk
 }
 
 // LinkEvent records one write (as issued by the writer) with its simulated time and step.
@@ -43,6 +44,7 @@ type Link struct {
 	LatMax     time.Duration
 	BytesPerMs int // 0 = unlimited
 	Atomic     func(data []byte) bool // chunks for which this holds are never cut (e.g. a trigger line: detectors work per read)
+	SealAtomic bool                   // atomic chunks are also never merged with their neighbours
 
 	// faults
 	Mangle     func(l *Link, data []byte) []byte // nil result = chunk withheld
@@ -130,8 +132,9 @@ func (l *Link) Write(p []byte) (int, error) {
 	if l.Record {
 		l.Deliv = append(l.Deliv, data...)
 	}
+	atomic := l.Atomic != nil && l.Atomic(data)
 	// coalesce with the previous undelivered segment
-	if n := len(l.segs); n > 0 && l.CoalescePm > 0 && w.Tape.Bool("coal", l.CoalescePm) {
+	if n := len(l.segs); n > 0 && l.CoalescePm > 0 && !atomic && !l.segs[n-1].sealed && w.Tape.Bool("coal", l.CoalescePm) {
 		last := l.segs[n-1]
 		last.data = append(last.data, data...)
 		last.at = at
@@ -140,7 +143,7 @@ func (l *Link) Write(p []byte) (int, error) {
 		return len(p), nil
 	}
 	cuts := 0
-	if l.SegPm > 0 && len(data) > 1 && (l.Atomic == nil || !l.Atomic(data)) {
+	if l.SegPm > 0 && len(data) > 1 && !atomic {
 		cuts = w.Tape.Rare("cuts", l.MaxCuts+1, l.SegPm)
 	}
 	for cuts > 0 && len(data) > 1 {
@@ -156,7 +159,7 @@ func (l *Link) Write(p []byte) (int, error) {
 		cuts--
 		l.Cuts++
 	}
-	l.segs = append(l.segs, &seg{data: data, at: at})
+	l.segs = append(l.segs, &seg{data: data, at: at, sealed: atomic && l.SealAtomic})
 	l.signalLocked()
 	return len(p), nil
 }
